@@ -318,7 +318,9 @@ func runC19(r *Run, stratum string) *Violation {
 	resets := 0
 	maxResets := g.Choose("nresets", 3)
 	resetActions := func() []pipeAction {
-		if !c19Resets || resets >= maxResets || l.getPhase() != 1 {
+		// in transactional mode a dropped connection is a reported restart and nothing may run twice within a run; without
+		// transactions connection loss is outside C19's quantifier (by-product, DESIGN §7.4) and stays an exploration switch
+		if !(c19Resets || cfg.Txn) || resets >= maxResets || l.getPhase() != 1 {
 			return nil
 		}
 		var cand []readyConn
